@@ -154,7 +154,7 @@ def run_batch(seed, n, profiles=("mixed",), ps=(0.1, 0.5, 0.9, 1.0), tracer=None
                 and rng.random() < custom_buffers_p:
             gen.gen_custom_buffers(rng, d, feats["nj"])
             feats["custom_buffers"] = True
-        early = rng.random() < early_p or bool(feats.get("force_early"))
+        early = (rng.random() < early_p or bool(feats.get("force_early"))) and not feats.get("force_no_early")
         cfgkw = {"early": early}
         if rng.random() < trunc_p:
             cfgkw.update(joker=rng.randint(0, 3), trunc_active=True)
